@@ -72,7 +72,9 @@ class SegmentHeader(object):
         """
         Return the total length of the segment, including the CRC.
         """
-        hl = SegmentCodec.UNCOMPRESSED_HEADER_LENGTH if self.uncompressed_payload_length < 1 \
+        # uncompressed_payload_length is -1 only when no compression was negotiated. With
+        # compression, a segment left uncompressed carries 0 but still has the 5-byte header.
+        hl = SegmentCodec.UNCOMPRESSED_HEADER_LENGTH if self.uncompressed_payload_length < 0 \
             else SegmentCodec.COMPRESSED_HEADER_LENGTH
         return hl + CRC24_LENGTH + self.payload_length + CRC32_LENGTH
 
